@@ -470,18 +470,142 @@ InsertByLen(sorted, w) ==
 RECURSIVE SortByLenDesc(_)
 SortByLenDesc(ws) == IF ws = <<>> THEN <<>> ELSE InsertByLen(SortByLenDesc(Front(ws)), Last(ws))
 FallbackAlt(tcs) == XAlt([i \in DOMAIN tcs |-> XLit(PlainCluster(SortByLenDesc(tcs)[i]))])
+(* the same for prepared clusters: cls[i] is the cluster of tcs[i]; longest TEST CASE first, stable *)
+RECURSIVE InsertPairByLen(_, _)
+InsertPairByLen(sorted, p) ==
+  IF sorted = <<>> THEN <<p>>
+  ELSE IF Len(Head(sorted)[1]) >= Len(p[1]) THEN <<Head(sorted)>> \o InsertPairByLen(Tail(sorted), p)
+       ELSE <<p>> \o sorted
+RECURSIVE SortPairs(_)
+SortPairs(ps) == IF ps = <<>> THEN <<>> ELSE InsertPairByLen(SortPairs(Front(ps)), Last(ps))
+FallbackAltCl(tcs, cls) == LET sp == SortPairs([i \in DOMAIN tcs |-> <<tcs[i], cls[i]>>]) IN
+                           XAlt([i \in DOMAIN sp |-> XLit(sp[i][2])])
 
 (* the whole pipeline on a set of words, no class / repetition conversion *)
 Pipeline(T, cfg, dev) ==
   LET tcs == SortTcs(T)
-      clusters == [i \in DOMAIN tcs |-> PlainCluster(tcs[i])]
+      clusters == [i \in DOMAIN tcs |-> IF cfg.rep THEN RepConvert(PlainCluster(tcs[i]), cfg) ELSE PlainCluster(tcs[i])]
       trie == BuildTrie(clusters, dev)
       min == Minimize(trie, dev)
       e1 == ToExpr(min, min.init)
-      e2 == ToExpr([trie EXCEPT !.fin = trie.fin], 0)
+      e2 == ToExpr(trie, 0)
       final == IF ~cfg.noend \/ WholeFound(e1, tcs) THEN e1
                ELSE IF WholeFound(e2, tcs) THEN e2
-               ELSE FallbackAlt(tcs)
+               ELSE FallbackAltCl(tcs, clusters)
   IN [tcs |-> tcs, clusters |-> clusters, trie |-> trie, min |-> min, e1 |-> e1, final |-> final,
       out |-> PrintRegex(final, cfg)]
+
+(***************************************************************************)
+(* S11, complete: verbose layout, capturing groups and colour              *)
+(* (src/format.rs, grapheme.rs Display, component.rs, regexp.rs Display +  *)
+(* indent_regexp).  Text is a sequence of PIECES: strings without line     *)
+(* breaks, the piece NL for a line break, and pieces <<"sgr", code>> for   *)
+(* the colour wrappers ESC [ code m.  Pieces keep the structure the        *)
+(* indentation pass looks at (a line "starts with" its first piece).       *)
+(***************************************************************************)
+NL == "\n"
+(* ESC is written \e so that the pieces stay printable strings *)
+Sgr(code) == "\\e[" \o code \o "m"
+SgrCodes == {"1;32", "1;33", "1;35", "1;36", "1;31", "104;37", "40;93", "103;30", "0"}
+IsSgr(p) == p \in {Sgr(c) : c \in SgrCodes}
+Colored(code, text, cfg) == IF cfg.color THEN <<Sgr(code)>> \o text \o <<Sgr("0")>> ELSE text
+
+LParen(cfg) == Colored("1;32", <<IF cfg.capture THEN "(" ELSE "(?:">>, cfg)
+RParen(cfg) == Colored("1;32", <<")">>, cfg)
+(* Component::(Un)CapturedParenthesizedExpression(expr, verbose, has_final_line_break) *)
+VGrp(body, cfg, finalBreak) ==
+  IF cfg.verbose
+  THEN <<NL>> \o LParen(cfg) \o <<NL>> \o body \o <<NL>> \o RParen(cfg) \o (IF finalBreak THEN <<NL>> ELSE <<>>)
+  ELSE LParen(cfg) \o body \o RParen(cfg)
+VQuant(q, cfg) == Colored("1;35", <<q>>, cfg) \o (IF cfg.verbose THEN <<NL>> ELSE <<>>)
+VRepet(txt, cfg, withBreak) == Colored("104;37", <<txt>>, cfg) \o (IF withBreak /\ cfg.verbose THEN <<NL>> ELSE <<>>)
+
+RECURSIVE VSym(_, _)
+VSym(sym, cfg) ==
+  LET value == IF sym.nest = <<>> THEN <<Join([i \in DOMAIN sym.u |-> Letters[sym.u[i][1]]])>>
+               ELSE LET RECURSIVE Cat(_)
+                        Cat(k) == IF k > Len(sym.nest) THEN <<>> ELSE VSym(sym.nest[k], cfg) \o Cat(k + 1)
+                    IN Cat(1)
+      single == Len(sym.u) = 1
+      count == IF sym.lo = sym.hi THEN "{" \o NatStr(sym.lo) \o "}"
+               ELSE "{" \o NatStr(sym.lo) \o "," \o NatStr(sym.hi) \o "}"
+  IN IF sym.lo = 1 /\ sym.hi = 1 THEN value
+     ELSE IF single THEN value \o VRepet(count, cfg, FALSE)
+     ELSE VGrp(value, cfg, FALSE) \o VRepet(count, cfg, TRUE)
+
+RECURSIVE VClassRuns(_, _, _)
+VClassRuns(atoms, cur, cfg) ==
+  LET flush == IF Len(cur) <= 2 THEN <<Join([i \in DOMAIN cur |-> Letters[cur[i]]])>>
+               ELSE <<Letters[cur[1]]>> \o Colored("1;36", <<"-">>, cfg) \o <<Letters[cur[Len(cur)]]>> IN
+  IF atoms = <<>> THEN flush
+  ELSE IF cur # <<>> /\ Head(atoms) = cur[Len(cur)] + 1 THEN VClassRuns(Tail(atoms), Append(cur, Head(atoms)), cfg)
+       ELSE flush \o VClassRuns(Tail(atoms), <<Head(atoms)>>, cfg)
+VClass(S, cfg) == LET sorted == SortSeq(SetToSeq(S), <) IN
+                  Colored("1;36", <<"[">>, cfg) \o VClassRuns(Tail(sorted), <<Head(sorted)>>, cfg)
+                  \o Colored("1;36", <<"]">>, cfg)
+
+RECURSIVE VExpr(_, _)
+VExpr(e, cfg) ==
+  LET Child(c, parent, finalBreak) ==
+        IF XPrec(c) < XPrec(parent) /\ ~XIsSingle(c) THEN VGrp(VExpr(c, cfg), cfg, finalBreak) ELSE VExpr(c, cfg)
+  IN CASE e.t = "lit"  -> LET RECURSIVE Cat(_)
+                              Cat(k) == IF k > Len(e.gs) THEN <<>> ELSE VSym(e.gs[k], cfg) \o Cat(k + 1)
+                          IN Cat(1)
+       [] e.t = "cc"   -> VClass(e.s, cfg)
+       [] e.t = "cat2" -> Child(e.a, e, TRUE) \o Child(e.b, e, TRUE)
+       [] e.t = "altn" -> LET bar == (IF cfg.verbose THEN <<NL>> ELSE <<>>) \o Colored("1;31", <<"|">>, cfg)
+                                     \o (IF cfg.verbose THEN <<NL>> ELSE <<>>)
+                              RECURSIVE Bars(_)
+                              Bars(xs) == IF Len(xs) = 1 THEN Child(xs[1], e, TRUE)
+                                          ELSE Child(Head(xs), e, TRUE) \o bar \o Bars(Tail(xs))
+                          IN Bars(e.xs)
+       [] e.t = "opt"  -> (IF XPrec(e.x) < XPrec(e) /\ ~XIsSingle(e.x) THEN VGrp(VExpr(e.x, cfg), cfg, FALSE)
+                           ELSE VExpr(e.x, cfg)) \o VQuant("?", cfg)
+
+(* RegExp::fmt before the indentation pass *)
+VRaw(e, cfg) ==
+  LET flag == IF cfg.icase /\ cfg.verbose THEN Colored("40;93", <<"(?ix)">>, cfg) \o <<NL>>
+              ELSE IF cfg.icase THEN Colored("40;93", <<"(?i)">>, cfg)
+              ELSE IF cfg.verbose THEN Colored("40;93", <<"(?x)">>, cfg) \o <<NL>> ELSE <<>>
+      caret == IF cfg.nostart THEN <<>> ELSE Colored("1;33", <<"^">>, cfg) \o (IF cfg.verbose THEN <<NL>> ELSE <<>>)
+      dollar == IF cfg.noend THEN <<>> ELSE (IF cfg.verbose THEN <<NL>> ELSE <<>>) \o Colored("1;33", <<"$">>, cfg)
+      body == IF e.t = "altn" THEN VGrp(VExpr(e, cfg), cfg, FALSE) ELSE VExpr(e, cfg)
+  IN flag \o caret \o body \o dollar
+
+(* str::lines(): split the pieces at NL (a trailing NL does not open another line) *)
+RECURSIVE SplitLines(_, _)
+SplitLines(ps, cur) ==
+  IF ps = <<>> THEN (IF cur = <<>> THEN <<>> ELSE <<cur>>)
+  ELSE IF Head(ps) = NL THEN <<cur>> \o SplitLines(Tail(ps), <<>>)
+       ELSE SplitLines(Tail(ps), Append(cur, Head(ps)))
+StripLine(line) == SelectSeq(line, LAMBDA p : ~IsSgr(p))
+FirstPiece(line) == IF StripLine(line) = <<>> THEN "" ELSE StripLine(line)[1]
+
+(* indent_regexp: nesting follows "^", "(" lines and "$", ")" lines of the UNCOLOURED text *)
+RECURSIVE IndentFrom(_, _, _, _)
+IndentFrom(lines, i, level, cfg) ==      \* i: 0-based index of the line (empty lines are counted, not printed)
+  IF i >= Len(lines) THEN <<>>
+  ELSE LET line == lines[i + 1]
+           lv1 == IF i = 1 /\ cfg.nostart THEN level + 1 ELSE level
+           plain == StripLine(line)
+           txt == Join(plain)
+       IN IF line = <<>> THEN IndentFrom(lines, i + 1, lv1, cfg)
+          ELSE LET lv2 == IF lv1 > 0 /\ (txt = "$" \/ FirstPiece(line) = ")") THEN lv1 - 1 ELSE lv1
+                   lv3 == IF txt = "^" \/ (i > 0 /\ FirstPiece(line) \in {"(", "(?:"}) THEN lv2 + 1 ELSE lv2
+               IN <<[indent |-> lv2, line |-> line]>> \o IndentFrom(lines, i + 1, lv3, cfg)
+Indented(e, cfg) == IndentFrom(SplitLines(VRaw(e, cfg), <<>>), 0, 0, cfg)
+
+(* final text: code point level is not needed, the model compares piece-wise *)
+RECURSIVE Spaces(_)
+Spaces(n) == IF n = 0 THEN "" ELSE "  " \o Spaces(n - 1)
+PieceStr(p) == p
+LineStr(l) == Spaces(l.indent) \o Join([i \in DOMAIN l.line |-> PieceStr(l.line[i])])
+RECURSIVE JoinLines(_)
+JoinLines(ls) == IF ls = <<>> THEN "" ELSE IF Len(ls) = 1 THEN LineStr(ls[1]) ELSE LineStr(ls[1]) \o "\\n" \o JoinLines(Tail(ls))
+(* what build() returns (line breaks as \n, ESC as \e so that the string stays printable) *)
+PrintFull(e, cfg) ==
+  IF cfg.verbose THEN JoinLines(Indented(e, cfg))
+  ELSE Join([i \in DOMAIN VRaw(e, cfg) |-> PieceStr(VRaw(e, cfg)[i])])
+(* C15 at the piece level: removing the colour pieces of the highlighted text gives the plain text *)
+StripPieces(ls) == [i \in DOMAIN ls |-> [indent |-> ls[i].indent, line |-> StripLine(ls[i].line)]]
 =============================================================================
